@@ -53,6 +53,8 @@ __attribute__((optnone, noinline)) static void step(OPN2_MIDIPlayer *dev)
 {
 #ifdef CHAN_SYMBOLIC
     step_ch(dev, nondet_uchar());
+#elif defined(CH_ONLY)
+    step_ch(dev, CH_ONLY);             // one channel value per obligation (the quick tier runs them in parallel)
 #else
     switch(nondet_uchar() & 3)
     {
